@@ -1,7 +1,7 @@
 ------------------------------ MODULE Trace_C02 ------------------------------
 (***************************************************************************)
 (* (c) impl -> spec for record framing: the compiled crate is swept over   *)
-(* content types x ALL 65536 declared lengths x {header only, header + 3   *)
+(* (content type, version) x ALL 65536 declared lengths x {header only, header + 3   *)
 (* bytes} through the three single-record parsers; the outcome-code tables *)
 (* are judged run by run against the codes the specification computes.     *)
 (* Codes: "ok" (exact header, consumption and payload range), "I0"          *)
@@ -13,16 +13,16 @@ ASSUME TLCSet(1, ndJsonDeserialize(IOEnv.VERIF_IN))
 Tables == TLCGet(1)
 N == Len(Tables)
 
-Code(r, fn, ct, len, extra) ==
+Code(r, fn, ct, ver, len, extra) ==
   IF r.k = "ok" THEN
-     (IF r.p = 5 + len /\ r.v.hdr = [ct |-> ct, ver |-> 771, len |-> len]
+     (IF r.p = 5 + len /\ r.v.hdr = [ct |-> ct, ver |-> ver, len |-> len]
          /\ (fn = "parse_tls_raw_record" => r.v.data = Rng(5, len)) /\ (fn = "parse_tls_encrypted" => r.v.blob = Rng(5, len))
       THEN "ok" ELSE "ok!")
   ELSE IF r.k = "inc" THEN (IF r.n = 5 + len - (5 + extra) THEN "I0" ELSE "I!")
   ELSE IF r.e = "TooLarge" THEN "T" ELSE "E"
 SpecCode(tb, len) ==
-  LET b == <<tb.ct, 3, 3>> \o BE16(len) \o (IF tb.extra = 3 THEN <<1, 0, 0>> ELSE <<>>) IN
-  Code(Apply(tb.fn, NoArgs, b), tb.fn, tb.ct, len, tb.extra)
+  LET b == <<tb.ct>> \o BE16(tb.ver) \o BE16(len) \o (IF tb.extra = 3 THEN <<1, 0, 0>> ELSE <<>>) IN
+  Code(Apply(tb.fn, NoArgs, b), tb.fn, tb.ct, tb.ver, len, tb.extra)
 Rle(tb) ==
   FoldLeft(LAMBDA acc, len : LET c == SpecCode(tb, len) n == Len(acc) IN
                              IF n > 0 /\ acc[n][1] = c THEN [acc EXCEPT ![n] = <<c, acc[n][2] + 1>>] ELSE Append(acc, <<c, 1>>),
@@ -34,7 +34,7 @@ Judge ==
   LET tb == Tables[i]  want == Rle(tb)
       n == IF Len(tb.rle) < Len(want) THEN Len(tb.rle) ELSE Len(want)
       d == {k \in 1..n : tb.rle[k] # want[k]} IN
-  EmitLine([fn |-> tb.fn, ct |-> tb.ct, extra |-> tb.extra, agree |-> tb.rle = want,
+  EmitLine([fn |-> tb.fn, ct |-> tb.ct, ver |-> tb.ver, extra |-> tb.extra, agree |-> tb.rle = want,
             first |-> IF tb.rle = want THEN <<>>
                       ELSE IF d = {} THEN <<n + 1>>
                       ELSE LET k == CHOOSE k \in d : \A h \in d : k <= h IN
